@@ -80,6 +80,11 @@ type stepStats struct {
 // runTrajectory materialises the world, runs it with the oracles attached and
 // returns the result.
 func runTrajectory(sc *Scenario, env *Env, oc *OutputCfg, oracles []Oracle, extraArgs []string) (*Result, *RunOutcome) {
+	return runTrajectoryHook(sc, env, oc, oracles, extraArgs, nil)
+}
+
+// runTrajectoryHook is runTrajectory with a callback that receives the materialised root before the run starts.
+func runTrajectoryHook(sc *Scenario, env *Env, oc *OutputCfg, oracles []Oracle, extraArgs []string, onRoot func(root string)) (*Result, *RunOutcome) {
 	t0 := time.Now()
 	res := &Result{Idx: sc.Idx, Status: "ok"}
 	w := sc.World
@@ -90,6 +95,9 @@ func runTrajectory(sc *Scenario, env *Env, oc *OutputCfg, oracles []Oracle, extr
 		res.Status = "invalid"
 		res.Note = "materialise: " + err.Error()
 		return res, nil
+	}
+	if onRoot != nil {
+		onRoot(root)
 	}
 	natSteps := map[int]int{}
 	hooks := &hermes.VerifHooks{
